@@ -115,6 +115,16 @@ def run(chk):
             for eng in ('jit', 'cl'):
                 lines.append('compile engine=%s prog=%s%s timeout=120' % (eng, p.hex(), (' helpers=' + hs) if hs else ''))
                 meta.append((i, eng, hs))
+        # helpers whose code is near the code buffer of one pass and far from that of the other (a helper below 2 GiB, as in a
+        # non-PIE executable; the sizing pass has no buffer yet): whatever a compiler derives from the distance to the helper
+        # must give the same length in the pass that counts and in the pass that writes -- many call sites, so that a
+        # difference of a few bytes per call crosses a page
+        call_low = B.mov(1, 5) + B.insn(0x85, 0, 0, 0, 1)
+        for n in ((60, 230, 460, 1000, 2500, 9000) if chk.tier == 'thorough' else (60, 230, 1000, 2500)):
+            progs.append((call_low * n + B.EXIT, 'near-helper'))
+            for eng in ('jit', 'cl'):
+                lines.append('compile engine=%s prog=%s helpers=1:low,2:mix timeout=120' % (eng, progs[-1][0].hex()))
+                meta.append((len(progs) - 1, eng, '1:low,2:mix'))
         answers = vlib.harness_run(binary, lines)
         outs, fams = {}, {}
         for (i, eng, hs), a in zip(meta, answers):
